@@ -62,9 +62,10 @@ def node_attr(schema, name):
 class Heap:
     """Immutable-by-convention: every update returns a new Heap sharing unchanged components."""
 
-    def __init__(self, comps=None, tag='h'):
+    def __init__(self, comps=None, tag='h', parent=None):
         self.c = dict(comps or {})
         self.tag = tag
+        self.parent = parent      # components never touched are shared with the heap this one was havoc'd from
 
     # ---- component access -------------------------------------------------------------
     def sort_of(self, comp):
@@ -97,12 +98,15 @@ class Heap:
 
     def get(self, comp):
         if comp not in self.c:
-            # a component nobody has touched yet: one shared unconstrained constant per heap generation
-            self.c[comp] = z3.Const('%s.%s' % (self.tag, comp), self.sort_of(comp))
+            if self.parent is not None:
+                self.c[comp] = self.parent.get(comp)
+            else:
+                # a component nobody has touched yet: one shared unconstrained constant per heap generation
+                self.c[comp] = z3.Const('%s.%s' % (self.tag, comp), self.sort_of(comp))
         return self.c[comp]
 
     def set(self, comp, term):
-        h = Heap(self.c, self.tag)
+        h = Heap(self.c, self.tag, self.parent)
         h.c[comp] = term
         return h
 
